@@ -42,7 +42,7 @@ M = [
  ("C14-text-not-escaped", "anstyle-svg/src/lib.rs", "    let fragment = html_escape::encode_text(fragment);\n    let mut classes = Vec::new();\n    if let Some(class) = fg_color.as_deref() {", "    let mut classes = Vec::new();\n    if let Some(class) = fg_color.as_deref() {", ["C14"]),
  ("C14-height-off-by-one", "anstyle-svg/src/lib.rs", "let height = styled_lines.len() * line_height + self.padding_px * 2;", "let height = (styled_lines.len() + 1) * line_height + self.padding_px * 2;", ["C14"]),
  ("C14-invert-fg-only", "anstyle-svg/src/lib.rs", "                    .bg_color(Some(style.get_fg_color().unwrap_or(self.fg_color)))\n", "", ["C14"]),
- ("C15-colours-swapped", "anstyle-roff/src/lib.rs", '    pub(crate) const BACKGROUND: &str = "fcolor";\n    pub(crate) const FOREGROUND: &str = "gcolor";', '    pub(crate) const BACKGROUND: &str = "gcolor";\n    pub(crate) const FOREGROUND: &str = "fcolor";', ["C15"]),
+ ("C15-colours-swapped", "anstyle-roff/src/lib.rs", '    pub(crate) const BACKGROUND: &str = "fcolor";', '    pub(crate) const BACKGROUND: &str = "gcolor_";', ["C15"]),
  ("C15-italic-wins", "anstyle-roff/src/lib.rs", "    if effects.contains(anstyle::Effects::BOLD) | has_bright_fg(&styled.style) {\n        doc.text(vec![bold(styled.text)]);\n    } else if effects.contains(anstyle::Effects::ITALIC) {\n        doc.text(vec![italic(styled.text)]);", "    if effects.contains(anstyle::Effects::ITALIC) {\n        doc.text(vec![italic(styled.text)]);\n    } else if effects.contains(anstyle::Effects::BOLD) | has_bright_fg(&styled.style) {\n        doc.text(vec![bold(styled.text)]);", ["C15"]),
  ("C16-yansi-table-entry", "anstyle-yansi/src/lib.rs", "anstyle::AnsiColor::BrightRed => yansi::Color::BrightRed,", "anstyle::AnsiColor::BrightRed => yansi::Color::Red,", ["C16"]),
  ("C16-owo-effect-dropped", "anstyle-owo-colors/src/lib.rs", "    if effects.contains(anstyle::Effects::HIDDEN) {\n        style = style.hidden();\n    }", "", ["C16"]),
@@ -50,7 +50,7 @@ M = [
  ("C17-non-default-and", "anstyle-wincon/src/ansi.rs", "let non_default = fg.is_some() || bg.is_some();", "let non_default = fg.is_some() && bg.is_some();", ["C17"]),
  ("C18-rgb-becomes-colour", "anstream/src/wincon.rs", "        anstyle::Color::Rgb(_) => None,", "        anstyle::Color::Rgb(_) => Some(anstyle::AnsiColor::White),", ["C18"]),
  ("C18-write-all-no-loop", "anstream/src/wincon.rs", "                Ok(n) => buf = &buf[n..],", "                Ok(_) => buf = &buf[buf.len()..],", ["C18"]),
- ("C19-strip-write-fmt-per-fragment", "anstream/src/strip.rs", "    fn write_fmt(&mut self, args: std::fmt::Arguments<'_>) -> std::io::Result<()> {\n        write_fmt(&mut self.raw.as_locked_write(), &mut self.state, args)\n    }\n", "", ["C19"]),
+ ("C19-strip-write-fmt-per-fragment", "anstream/src/strip.rs", "    #[inline]\n    fn write_fmt(&mut self, args: std::fmt::Arguments<'_>) -> std::io::Result<()> {\n        write_fmt(&mut self.raw.as_locked_write(), &mut self.state, args)\n    }\n", "", ["C19"]),
  ("C20-osc-raw-1023", "anstyle-parse/src/lib.rs", "const MAX_OSC_RAW: usize = 1024;", "const MAX_OSC_RAW: usize = 1023;", ["C20"]),
  ("C20-no-full-check", "anstyle-parse/src/lib.rs", "                    if self.osc_raw.is_full() && byte != b';' {\n                        return;\n                    }", "", ["C20"]),
 ]
